@@ -40,7 +40,9 @@ RULE = ("DFS enumeration of ALL legal command lists up to the tier's length over
         "reset-assertions, check-sat; solver: add a/b, push 0-2, pop 0-2, reset_assertions, solve(), "
         "solve([literal]), solve([non-literal]), is_sat, is_valid, is_unsat, read assertions), every illegal "
         "one-step extension of a legal script, plus random legal lists (length 5..60, push-heavy / pop-heavy "
-        "/ soft-heavy profiles, minmax/maxmin included); distinct = distinct command lists")
+        "/ soft-heavy profiles, minmax/maxmin included); thorough adds length 5 and length 6 over 8-symbol "
+        "sub-alphabets; implementation + oracle run on every list, the Coq model on every list up to length 4, every "
+        "random list and (thorough) a seeded 15% sample of the longer enumerated ones; distinct = distinct command lists")
 
 K_KEYERR = "get_last_formula:KeyError:soft-goal-created-and-popped-without-intervening-push"
 K_STRICT = "get_strict_formula:assert-before-reset-assertions-still-reported"
@@ -689,6 +691,51 @@ def solver_repro(tokens):
 
 # ---------------------------------------------------------------------------------------
 
+def line_coverage(I, lists, slists):
+    """Source lines of the modelled functions that the generated cases execute (sample)."""
+    import dis
+    import sys
+    import pysmt.solvers.solver as S
+    from pysmt.smtlib.script import SmtLibScript
+    codes = {}
+    for name, fn in (("script.get_last_formula", SmtLibScript.get_last_formula),
+                     ("script.get_strict_formula", SmtLibScript.get_strict_formula),
+                     ("solver.Solver.is_sat", S.Solver.is_sat), ("solver.Solver.is_valid", S.Solver.is_valid),
+                     ("solver.Solver.is_unsat", S.Solver.is_unsat),
+                     ("solver.ITS.add_assertion", S.IncrementalTrackingSolver.add_assertion),
+                     ("solver.ITS.push", S.IncrementalTrackingSolver.push), ("solver.ITS.pop", S.IncrementalTrackingSolver.pop),
+                     ("solver.ITS.reset_assertions", S.IncrementalTrackingSolver.reset_assertions),
+                     ("solver.ITS.solve", S.IncrementalTrackingSolver.solve),
+                     ("solver.ITS.assertions", S.IncrementalTrackingSolver.assertions.fget.__wrapped__),
+                     ("decorators.clear_pending_pop_wrap", I.BruteForceSolver._push)):
+        codes[fn.__code__] = name
+    seen = set()
+
+    def local(frame, event, arg):
+        if event == "line":
+            seen.add((frame.f_code, frame.f_lineno))
+        return local
+
+    def tracer(frame, event, arg):
+        return local if frame.f_code in codes else None
+    sys.settrace(tracer)
+    try:
+        for t in lists:
+            I.last_formula(t)
+            I.strict_formula(t)
+        for t in slists:
+            I.run_solver(t)
+    finally:
+        sys.settrace(None)
+    missing = {}
+    for code, name in codes.items():
+        alll = set(l for _, l in dis.findlinestarts(code) if l is not None) - {code.co_firstlineno}
+        miss = sorted(l for l in alll if (code, l) not in seen)
+        if miss:
+            missing[name] = miss
+    return missing
+
+
 def run(tier):
     chk = lib.Check("C16", tier)
     rnd = random.Random(chk.seed)
@@ -709,11 +756,17 @@ def run(tier):
     nenum = len(lists)
     for _ in range(nrand):
         lists.append(random_list(rnd, SCRIPT_ALPHABET, SCRIPT_EXTRA, 60, allow_illegal=True))
-    rows, seen = [], set()
+    # model side (Coq): every list up to length 4, every random list, and in the thorough tier a seeded sample of
+    # the longer enumerated ones; the implementation + oracle side runs on all of them
+    rsel = random.Random(chk.seed + 1)
+    frac = 1.0 if tier == "quick" else 0.15
+    rows, seen, sel = [], set(), []
     nlegal = 0
-    for toks in lists:
+    for idx, toks in enumerate(lists):
         last, strict = I.last_formula(toks), I.strict_formula(toks)
-        rows.append("([%s], %s, %s)" % ("; ".join(coq_script_cmd(t) for t in toks), coq_last(last), coq_strict(strict)))
+        if len(toks) <= 4 or idx >= nenum or rsel.random() < frac:
+            sel.append(toks)
+            rows.append("([%s], %s, %s)" % ("; ".join(coq_script_cmd(t) for t in toks), coq_last(last), coq_strict(strict)))
         chk.count(("script", tuple(toks)))
         if depth_after(toks) is not None:
             nlegal += 1
@@ -722,7 +775,7 @@ def run(tier):
     chk.sample({"kind": "script (random)", "commands": tok_str(lists[-1]), "get_last_formula": str(I.last_formula(lists[-1]))})
     files = write_cases(chk, "script", rows,
                         "list (cmd nat nat) * result (list nat * list (cgoal nat nat)) * result (list nat)", SCRIPT_TAIL)
-    meta = dict((p, ("script", lists[i * 500:(i + 1) * 500])) for i, p in enumerate(files))
+    meta = dict((p, ("script", sel[i * 500:(i + 1) * 500])) for i, p in enumerate(files))
     chk.note("scripts: %d command lists (%d enumerated, %d legal)" % (len(lists), nenum, nlegal))
 
     # ---------------- solver ----------------------------------------------------------
@@ -734,10 +787,12 @@ def run(tier):
     nsenum = len(slists)
     for _ in range(nrand):
         slists.append(random_list(rnd, SOLVER_ALPHABET, SOLVER_EXTRA, 60, allow_illegal=False))
-    srows, sseen = [], set()
-    for toks in slists:
+    srows, sseen, ssel = [], set(), []
+    for idx, toks in enumerate(slists):
         tr, problems = I.run_solver(toks)
-        srows.append("([%s], %s)" % ("; ".join(coq_solver_cmd(t) for t in toks), coq_trace(tr)))
+        if len(toks) <= 4 or idx >= nsenum or rsel.random() < frac:
+            ssel.append(toks)
+            srows.append("([%s], %s)" % ("; ".join(coq_solver_cmd(t) for t in toks), coq_trace(tr)))
         chk.count(("solver", tuple(toks)))
         if problems and len(sseen) < 40:
             key = "solver:%s" % tok_str(toks)
@@ -748,9 +803,15 @@ def run(tier):
     chk.sample({"kind": "solver", "commands": tok_str(slists[nsenum - 1]), "trace": str(I.run_solver(slists[nsenum - 1])[0])})
     chk.sample({"kind": "solver (random)", "commands": tok_str(slists[-1]), "trace": str(I.run_solver(slists[-1])[0][-3:])})
     sfiles = write_cases(chk, "solver", srows, "list (scmd nat) * list (result (tst nat))", SOLVER_TAIL)
-    meta.update(dict((p, ("solver", slists[i * 500:(i + 1) * 500])) for i, p in enumerate(sfiles)))
+    meta.update(dict((p, ("solver", ssel[i * 500:(i + 1) * 500])) for i, p in enumerate(sfiles)))
     chk.note("solver: %d command lists (%d enumerated)" % (len(slists), nsenum))
 
+    cov_s = lists[:2500] + lists[nenum - 300:nenum] + lists[-300:]
+    cov_t = slists[:2500] + slists[nsenum - 300:nsenum] + slists[-300:]
+    chk.cov["uncovered_lines_of_modelled_functions"] = line_coverage(I, cov_s, cov_t)
+    chk.cov["uncovered_lines_note"] = ("expected: the non-incremental and push-not-implemented branches of Solver.is_sat, the "
+                                       "the unknown-result handler of solve, the `mgr is None` default and the "
+                                       "return without optimizations (the harness passes mgr and return_optimizations=True)")
     # ---------------- model side ------------------------------------------------------
     corr_bad = []
     if os.path.exists(os.path.join(lib.COQ, "models", "TrackSolver.vo")) and os.path.exists(os.path.join(lib.COQ, "models", "Script.vo")):
@@ -766,8 +827,10 @@ def run(tier):
                     corr_bad.append({"file": p, "kind": kind, "index": i, "commands": tok_str(data[i]), "tokens": data[i]})
     else:
         corr_bad.append({"error": "the model files do not compile"})
-    chk.cov["correspondence"] = {"script_lists": len(lists), "script_enumerated_up_to": maxlen, "script_legal": nlegal,
+    chk.cov["correspondence"] = {"script_lists_model_side": len(sel), "solver_lists_model_side": len(ssel),
+                                 "script_lists": len(lists), "script_enumerated_up_to": maxlen, "script_legal": nlegal,
                                  "solver_lists": len(slists), "solver_enumerated_up_to": maxlen,
+                                 "also_enumerated": "length 6 over 8-symbol sub-alphabets" if tier == "thorough" else None,
                                  "case_files": len(files) + len(sfiles), "disagreements": len(corr_bad),
                                  "compared": "scripts: result of get_last_formula(return_optimizations=True) "
                                              "(assertion list, goals with soft clauses and weights, or exception class) and of "
